@@ -6,7 +6,8 @@ patch.diff there, point the checks at it (VERIF_REPO), record per check: exit co
 obligations (from the replay file).  Result goes to seeded/<id>/meta.json ["detected_by"].  The scratch copy and its
 evidence directory are removed afterwards; /repo itself is never touched.
 
-usage: seed_detect.py [--checks C01,C02..] [<id> ...]     (default: every seed, all 20 checks)"""
+usage: seed_detect.py [--merge] [--checks C01,C02..] [<id> ...]     (default: every seed, all 20 checks)
+--merge: keep the recorded results of the checks that are not re-run (used after a rule change that touches only some checks)"""
 import json
 import os
 import shutil
@@ -21,6 +22,10 @@ PROPS = [f'C{i:02d}' for i in range(1, 21)]
 def main():
     args = sys.argv[1:]
     checks = PROPS
+    merge = False
+    if args and args[0] == '--merge':
+        merge = True
+        args = args[1:]
     if args and args[0] == '--checks':
         checks = args[1].split(',')
         args = args[2:]
@@ -60,9 +65,17 @@ def main():
                     if r.returncode != 1:
                         res[c]['tail'] = r.stdout[-300:]
             prop = meta['breaks_property']
+            old = meta.get('detected_by') or {}
+            if merge and 'reporting' in old:
+                for c, v in list(old.get('reporting', {}).items()) + list(old.get('undecided', {}).items()):
+                    if c not in checks:
+                        res[c] = v
+                checks_run = sorted(set(old.get('checks_run', [])) | set(checks))
+            else:
+                checks_run = list(checks)
             meta['detected_by'] = {
                 'repo_head': head,
-                'checks_run': checks,
+                'checks_run': checks_run,
                 'reporting': {c: v for c, v in res.items() if v['exit'] == 1},
                 'undecided': {c: v for c, v in res.items() if v['exit'] not in (0, 1)},
                 'caught_by_own_property_check': res.get(prop, {}).get('exit') == 1,
